@@ -8,6 +8,7 @@ c. `getIdentifiers_spec`     exactly the children that are neither whitespace no
 d. `getCases_spec`           canonical `CASE (WHEN c THEN v)* (ELSE v)? END`
 e. totality facts and raising witnesses
 f. `removeQuotes` lemmas and the name accessors on canonical identifiers
+g. `get_type`: DML/DDL head, empty statement, fuel of the CTE walk
 
 `upper` (Python `str.upper`) is an arbitrary function throughout, unless a statement says otherwise.
 -/
@@ -1325,6 +1326,488 @@ theorem names_plain_class (up : Text → Text) (c : Cls) (ks : List Node) (hc : 
     getRealName up c ks = .ok none ∧ getAlias up c ks = .ok none ∧ getName up c ks = .ok none ∧
     hasAlias up c ks = .ok false := by
   simp [getRealName, getAlias, getName, hasAlias, realNameK, aliasK, nameK, pyOrName, hc, Except.map]
+
+/-! ## f. `remove_quotes` and the name accessors on canonical identifiers -/
+
+/-- a quoted value loses its quotes -/
+theorem removeQuotes_quoted (q : Cp) (body : Text) (hq : isQuoteCp q = true) :
+    removeQuotes (q :: body ++ [q]) = .ok body := by
+  have hl : (q :: (body ++ [q])).getLast? = some q := by
+    rw [← List.cons_append, List.getLast?_concat]
+  have hd : (body ++ [q]).dropLast = body := List.dropLast_concat
+  simp [removeQuotes, hq, hl, hd]
+
+/-- a non-empty value that does not start with a quote character is returned unchanged -/
+theorem removeQuotes_plain (c : Cp) (rest : Text) (hc : isQuoteCp c = false) :
+    removeQuotes (c :: rest) = .ok (c :: rest) := by
+  simp [removeQuotes, hc]
+
+/-- a value starting with a quote and ending differently is returned unchanged (`"a`, `'a"`) -/
+theorem removeQuotes_unbalanced (c : Cp) (rest : Text) (h : (c :: rest).getLast? ≠ some c) :
+    removeQuotes (c :: rest) = .ok (c :: rest) := by
+  simp [removeQuotes, h]
+
+/-- the complete case analysis of `remove_quotes` -/
+theorem removeQuotes_cases (v r : Text) (h : removeQuotes v = .ok r) :
+    r = v ∨ ∃ q, isQuoteCp q = true ∧ (v = [q] ∧ r = [] ∨ v = q :: r ++ [q]) := by
+  cases v with
+  | nil => simp [removeQuotes] at h
+  | cons c rest =>
+    simp only [removeQuotes] at h
+    split at h
+    · rename_i hc
+      simp only [Bool.and_eq_true] at hc
+      cases h
+      right
+      refine ⟨c, hc.1, ?_⟩
+      cases rest with
+      | nil => left; simp
+      | cons d rest' =>
+        right
+        have hl : (d :: rest').getLast? = some c := by simpa using hc.2
+        obtain ⟨ys, hys⟩ := List.getLast?_eq_some_iff.1 hl
+        rw [hys]; simp
+    · cases h; left; rfl
+
+/-! ### general navigation lemmas -/
+
+theorem tokenNextBy_none_of_forall (up : Text → Text) (ks : List Node) (i : List Cls) (m : List MPat) (t : TArg)
+    (h : ∀ k ∈ ks, imt up k i m t = false) : tokenNextBy up ks i m t = none := by
+  unfold tokenNextBy
+  rw [(tokenMatchingFwd_spec ks _ 0).2]
+  intro j k _ hk
+  exact h k (List.mem_of_getElem? hk)
+
+theorem tokenNextBy_hit (up : Text → Text) (pre : List Node) (x : Node) (rest : List Node) (i : List Cls)
+    (m : List MPat) (t : TArg) (hpre : ∀ k ∈ pre, imt up k i m t = false) (hx : imt up x i m t = true) :
+    tokenNextBy up (pre ++ x :: rest) i m t = some (pre.length, x) := by
+  unfold tokenNextBy
+  rw [(tokenMatchingFwd_spec _ _ 0).1]
+  refine ⟨Nat.zero_le _, by simp, hx, ?_⟩
+  intro j k' _ hj hk
+  rw [List.getElem?_append_left hj] at hk
+  exact hpre k' (List.mem_of_getElem? hk)
+
+theorem nameInfoL_length (up : Text → Text) (ks : List Node) : (nameInfoL up ks).length = ks.length := by
+  induction ks with
+  | nil => rfl
+  | cons k ks ih => simp [nameInfoL, ih]
+
+theorem withInfo_map_fst (up : Text → Text) (ks : List Node) : (withInfo up ks).map (·.1) = ks := by
+  unfold withInfo
+  exact List.map_fst_zip (by rw [nameInfoL_length]; exact Nat.le_refl _)
+
+/-- a child the loop of `_get_first_name` passes over: a leaf whose type is not among `types` -/
+def PassedOver (types : List TType) (k : Node) : Prop :=
+  k.ttEqAny types = false ∧ k.isInstAny [.Identifier, .Function] = false
+
+theorem firstNameLoop_hit (types : List TType) (rn : Bool) (l : List (Node × NameInfo)) (pre : List Node) (x : Node)
+    (rest : List Node) (hl : l.map (·.1) = pre ++ x :: rest) (hpre : ∀ k ∈ pre, PassedOver types k)
+    (hx : x.ttEqAny types = true) : firstNameLoop types rn l = (removeQuotes x.value).map some := by
+  induction pre generalizing l with
+  | nil =>
+    cases l with
+    | nil => simp at hl
+    | cons p l =>
+      obtain ⟨k, info⟩ := p
+      simp only [List.map_cons, List.nil_append, List.cons.injEq] at hl
+      obtain ⟨rfl, _⟩ := hl
+      simp [firstNameLoop, hx]
+  | cons a pre ih =>
+    cases l with
+    | nil => simp at hl
+    | cons p l =>
+      obtain ⟨k, info⟩ := p
+      simp only [List.map_cons, List.cons_append, List.cons.injEq] at hl
+      obtain ⟨rfl, hl⟩ := hl
+      have ha := hpre k (by simp)
+      simp only [firstNameLoop, ha.1, ha.2, Bool.false_eq_true, if_false]
+      exact ih l hl (fun k' hk' => hpre k' (by simp [hk']))
+
+/-- the tokens `_get_first_name(idx, reverse)` iterates over -/
+def sliceOf (ks : List Node) (idx : Option Nat) (rev : Bool) : List Node :=
+  let t := match idx with
+    | none => ks
+    | some i => if i == 0 then ks else ks.drop i
+  if rev then t.reverse else t
+
+/-- `_get_first_name` returns the unquoted value of the first token of a name type, when only leaves of other
+types precede it in iteration order -/
+theorem getFirstName_hit (up : Text → Text) (ks : List Node) (idx : Option Nat) (rev kw rn : Bool)
+    (pre : List Node) (x : Node) (rest : List Node) (hs : sliceOf ks idx rev = pre ++ x :: rest)
+    (hpre : ∀ k ∈ pre, PassedOver (nameTypes kw) k) (hx : x.ttEqAny (nameTypes kw) = true) :
+    getFirstName up ks idx rev kw rn = (removeQuotes x.value).map some := by
+  unfold getFirstName firstNameK
+  apply firstNameLoop_hit _ _ _ pre x rest _ hpre hx
+  rw [← hs]
+  unfold sliceOf
+  cases rev <;> cases idx with
+  | none => simp [withInfo_map_fst]
+  | some i =>
+    by_cases hi : (i == 0) = true
+    · simp [hi, withInfo_map_fst]
+    · simp [hi, withInfo_map_fst, List.map_drop]
+
+/-! ### canonical identifiers `[qual .]? name (ws+ [AS ws+]? alias)?` -/
+
+/-- a name token: `Name` (plain or backtick-quoted) or `String.Symbol` (double-quoted) -/
+def IsNameTok (k : Node) : Prop := ∃ v, k = .tok T.Name v ∨ k = .tok T.StringSymbol v
+/-- a whitespace token -/
+def IsWsTok (k : Node) : Prop := ∃ v, k = .tok T.Whitespace v ∨ k = .tok T.Newline v
+/-- the `.` -/
+def dotTok : Node := .tok T.Punctuation [46]
+/-- an `AS` keyword in any spelling that upper-cases to `AS` -/
+def IsAsTok (up : Text → Text) (k : Node) : Prop := ∃ v, k = .tok T.Keyword v ∧ up v = up [65, 83]
+
+inductive AliasPart where
+  | none
+  | implicit (ws : List Node) (alias : Node)
+  | explicit (ws1 : List Node) (as : Node) (ws2 : List Node) (alias : Node)
+
+def AliasPart.render : AliasPart → List Node
+  | .none => []
+  | .implicit ws a => ws ++ [a]
+  | .explicit ws1 as ws2 a => ws1 ++ as :: (ws2 ++ [a])
+
+def AliasPart.WF (up : Text → Text) : AliasPart → Prop
+  | .none => True
+  | .implicit ws a => ws ≠ [] ∧ (∀ k ∈ ws, IsWsTok k) ∧ IsNameTok a
+  | .explicit ws1 as ws2 a =>
+    ws1 ≠ [] ∧ (∀ k ∈ ws1, IsWsTok k) ∧ IsAsTok up as ∧ ws2 ≠ [] ∧ (∀ k ∈ ws2, IsWsTok k) ∧ IsNameTok a
+
+def AliasPart.alias? : AliasPart → Option Node
+  | .none => Option.none
+  | .implicit _ a => some a
+  | .explicit _ _ _ a => some a
+
+def qualRender : Option Node → List Node
+  | none => []
+  | some q => [q, dotTok]
+
+/-- the children of a canonical identifier -/
+def identShape (qual : Option Node) (name : Node) (al : AliasPart) : List Node :=
+  qualRender qual ++ name :: al.render
+
+/-- `remove_quotes(k.value)` of an optional token -/
+def unquoted : Option Node → Except PyErr (Option Text)
+  | none => .ok none
+  | some k => (removeQuotes k.value).map some
+
+section TokenFacts
+variable (up : Text → Text)
+
+theorem imt_tok_match_ne (t : TType) (v : Text) (p : MPat) (h : (t != p.tt) = true) :
+    imt up (.tok t v) [] [p] .none = false := by
+  simp only [imt, Node.isInstAny, List.any_nil, Node.matchP, Node.match, h, if_true, List.any_cons, Bool.or_false]
+
+theorem imt_tok_hier (t : TType) (v : Text) (tt : TType) :
+    imt up (.tok t v) [] [] (.hier [tt]) = t.isIn tt := by
+  simp [imt, Node.isInstAny, Node.ttIn]
+
+theorem tok_passed (t : TType) (v : Text) (types : List TType) (h : types.contains t = false) :
+    PassedOver types (.tok t v) := ⟨h, rfl⟩
+
+theorem name_not_dot {k : Node} (h : IsNameTok k) : imt up k [] [mDot] .none = false := by
+  obtain ⟨v, rfl | rfl⟩ := h <;> exact imt_tok_match_ne up _ v mDot (by decide)
+theorem name_not_as {k : Node} (h : IsNameTok k) : imt up k [] [mAS] .none = false := by
+  obtain ⟨v, rfl | rfl⟩ := h <;> exact imt_tok_match_ne up _ v mAS (by decide)
+theorem name_not_ws {k : Node} (h : IsNameTok k) : imt up k [] [] (.hier [T.Whitespace]) = false := by
+  obtain ⟨v, rfl | rfl⟩ := h <;> rw [imt_tok_hier] <;> decide
+theorem name_hit {k : Node} (h : IsNameTok k) (kw : Bool) : k.ttEqAny (nameTypes kw) = true := by
+  obtain ⟨v, rfl | rfl⟩ := h <;> cases kw <;> (show List.contains _ _ = true) <;> decide
+theorem name_not_skipped {k : Node} (h : IsNameTok k) : skipMatcher true false k = true := by
+  obtain ⟨v, rfl | rfl⟩ := h
+  · have : TType.isIn T.Name T.Whitespace = false := by decide
+    simp [skipMatcher, Node.isWhitespace, this]
+  · have : TType.isIn T.StringSymbol T.Whitespace = false := by decide
+    simp [skipMatcher, Node.isWhitespace, this]
+
+theorem ws_not_dot {k : Node} (h : IsWsTok k) : imt up k [] [mDot] .none = false := by
+  obtain ⟨v, rfl | rfl⟩ := h <;> exact imt_tok_match_ne up _ v mDot (by decide)
+theorem ws_not_as {k : Node} (h : IsWsTok k) : imt up k [] [mAS] .none = false := by
+  obtain ⟨v, rfl | rfl⟩ := h <;> exact imt_tok_match_ne up _ v mAS (by decide)
+theorem ws_is_ws {k : Node} (h : IsWsTok k) : imt up k [] [] (.hier [T.Whitespace]) = true := by
+  obtain ⟨v, rfl | rfl⟩ := h <;> rw [imt_tok_hier] <;> decide
+theorem ws_passed {k : Node} (h : IsWsTok k) (kw : Bool) : PassedOver (nameTypes kw) k := by
+  obtain ⟨v, rfl | rfl⟩ := h <;> cases kw <;> exact tok_passed _ v _ (by decide)
+
+theorem dot_is_dot : imt up dotTok [] [mDot] .none = true := by
+  have : TType.isIn T.Punctuation T.Keyword = false := by decide
+  simp [imt, Node.isInstAny, Node.matchP, Node.match, mDot, dotTok, this]
+theorem dot_not_as : imt up dotTok [] [mAS] .none = false := imt_tok_match_ne up _ _ mAS (by decide)
+theorem dot_not_ws : imt up dotTok [] [] (.hier [T.Whitespace]) = false := by
+  unfold dotTok; rw [imt_tok_hier]; decide
+theorem dot_passed (kw : Bool) : PassedOver (nameTypes kw) dotTok := by
+  cases kw <;> exact tok_passed _ _ _ (by decide)
+
+theorem as_not_dot {k : Node} (h : IsAsTok up k) : imt up k [] [mDot] .none = false := by
+  obtain ⟨v, rfl, _⟩ := h; exact imt_tok_match_ne up _ v mDot (by decide)
+theorem as_is_as {k : Node} (h : IsAsTok up k) : imt up k [] [mAS] .none = true := by
+  obtain ⟨v, rfl, hv⟩ := h
+  have : TType.isIn T.Keyword T.Keyword = true := by decide
+  simp [imt, Node.isInstAny, Node.matchP, Node.match, mAS, this, hv]
+
+end TokenFacts
+
+theorem drop_length_succ {α : Type} (A : List α) (x : α) (R : List α) : (A ++ x :: R).drop (A.length + 1) = R := by
+  induction A with
+  | nil => rfl
+  | cons a A ih => simp [ih]
+
+section IdentShape
+variable (up : Text → Text)
+
+theorem alias_render_not_dot {al : AliasPart} (h : al.WF up) : ∀ k ∈ al.render, imt up k [] [mDot] .none = false := by
+  cases al with
+  | none => intro k hk; cases hk
+  | implicit ws a =>
+    obtain ⟨_, hws, ha⟩ := h
+    intro k hk
+    simp only [AliasPart.render, List.mem_append, List.mem_singleton] at hk
+    rcases hk with hk | rfl
+    · exact ws_not_dot up (hws k hk)
+    · exact name_not_dot up ha
+  | explicit ws1 as ws2 a =>
+    obtain ⟨_, hws1, has, _, hws2, ha⟩ := h
+    intro k hk
+    simp only [AliasPart.render, List.mem_append, List.mem_cons, List.not_mem_nil, or_false] at hk
+    rcases hk with hk | rfl | hk | rfl
+    · exact ws_not_dot up (hws1 k hk)
+    · exact as_not_dot up has
+    · exact ws_not_dot up (hws2 k hk)
+    · exact name_not_dot up ha
+
+/-- **`get_real_name()`** of a canonical identifier is its name token with quotes removed -/
+theorem getRealName_identShape (c : Cls) (hc : isMixin c = true) (qual : Option Node) (name : Node) (al : AliasPart)
+    (hq : ∀ q, qual = some q → IsNameTok q) (hn : IsNameTok name) (hal : al.WF up) :
+    getRealName up c (identShape qual name al) = unquoted (some name) := by
+  have hrest : ∀ k ∈ name :: al.render, imt up k [] [mDot] .none = false := by
+    intro k hk
+    rcases List.mem_cons.1 hk with rfl | hk
+    · exact name_not_dot up hn
+    · exact alias_render_not_dot up hal k hk
+  show realNameK up c (withInfo up _) = _
+  simp only [realNameK, hc, if_true, mixinRealNameK, withInfo_map_fst]
+  cases qual with
+  | none =>
+    have hnone : tokenNextBy up (identShape none name al) [] [mDot] .none = none :=
+      tokenNextBy_none_of_forall up _ _ _ _ (by simpa [identShape, qualRender] using hrest)
+    rw [hnone]
+    exact getFirstName_hit up _ none false false true [] name al.render (by simp [sliceOf, identShape, qualRender])
+      (by intro k hk; cases hk) (name_hit hn false)
+  | some q =>
+    have hqn := hq q rfl
+    have hdot : tokenNextBy up (identShape (some q) name al) [] [mDot] .none = some (1, dotTok) := by
+      have := tokenNextBy_hit up [q] dotTok (name :: al.render) [] [mDot] .none
+        (by intro k hk; simp at hk; subst hk; exact name_not_dot up hqn) (dot_is_dot up)
+      simpa [identShape, qualRender] using this
+    rw [hdot]
+    exact getFirstName_hit up _ (some 1) false false true [dotTok] name al.render
+      (by simp [sliceOf, identShape, qualRender])
+      (by intro k hk; simp at hk; subst hk; exact dot_passed false) (name_hit hn false)
+
+/-- **`get_parent_name()`**: the qualifier with quotes removed, `None` without one -/
+theorem getParentName_identShape (qual : Option Node) (name : Node) (al : AliasPart)
+    (hq : ∀ q, qual = some q → IsNameTok q) (hn : IsNameTok name) (hal : al.WF up) :
+    getParentName up (identShape qual name al) = unquoted qual := by
+  have hrest : ∀ k ∈ name :: al.render, imt up k [] [mDot] .none = false := by
+    intro k hk
+    rcases List.mem_cons.1 hk with rfl | hk
+    · exact name_not_dot up hn
+    · exact alias_render_not_dot up hal k hk
+  unfold getParentName
+  cases qual with
+  | none =>
+    have hnone : tokenNextBy up (identShape none name al) [] [mDot] .none = none :=
+      tokenNextBy_none_of_forall up _ _ _ _ (by simpa [identShape, qualRender] using hrest)
+    rw [hnone]; rfl
+  | some q =>
+    have hqn := hq q rfl
+    have hdot : tokenNextBy up (identShape (some q) name al) [] [mDot] .none = some (1, dotTok) := by
+      have := tokenNextBy_hit up [q] dotTok (name :: al.render) [] [mDot] .none
+        (by intro k hk; simp at hk; subst hk; exact name_not_dot up hqn) (dot_is_dot up)
+      simpa [identShape, qualRender] using this
+    rw [hdot]
+    have hprev : tokenPrev (identShape (some q) name al) 1 = some (0, q) := by
+      rw [(tokenPrev_spec _ 1 true false).1]
+      refine ⟨by omega, by simp [identShape, qualRender], ?_, fun j k' h1 h2 => by omega⟩
+      unfold Skipped; rw [name_not_skipped hqn]; simp
+    simp only [hprev]
+    rfl
+
+/-- **`get_alias()`**: the alias token with quotes removed, `None` without one -/
+theorem getAlias_identShape (c : Cls) (hc : isMixin c = true) (qual : Option Node) (name : Node) (al : AliasPart)
+    (hq : ∀ q, qual = some q → IsNameTok q) (hn : IsNameTok name) (hal : al.WF up) :
+    getAlias up c (identShape qual name al) = unquoted al.alias? := by
+  have hhead_as : ∀ k ∈ qualRender qual ++ [name], imt up k [] [mAS] .none = false := by
+    intro k hk
+    cases qual with
+    | none => simp [qualRender] at hk; subst hk; exact name_not_as up hn
+    | some q =>
+      simp [qualRender] at hk
+      rcases hk with rfl | rfl | rfl
+      · exact name_not_as up (hq _ rfl)
+      · exact dot_not_as up
+      · exact name_not_as up hn
+  have hhead_ws : ∀ k ∈ qualRender qual ++ [name], imt up k [] [] (.hier [T.Whitespace]) = false := by
+    intro k hk
+    cases qual with
+    | none => simp [qualRender] at hk; subst hk; exact name_not_ws up hn
+    | some q =>
+      simp [qualRender] at hk
+      rcases hk with rfl | rfl | rfl
+      · exact name_not_ws up (hq _ rfl)
+      · exact dot_not_ws up
+      · exact name_not_ws up hn
+  show aliasK up c (withInfo up _) = _
+  simp only [aliasK, hc, if_true, mixinAliasK, withInfo_map_fst]
+  cases al with
+  | none =>
+    have hks : identShape qual name .none = qualRender qual ++ [name] := by simp [identShape, AliasPart.render]
+    rw [hks, tokenNextBy_none_of_forall up _ _ _ _ hhead_as, tokenNextBy_none_of_forall up _ _ _ _ hhead_ws]
+    rfl
+  | implicit ws a =>
+    obtain ⟨hne, hws, ha⟩ := hal
+    have hks : identShape qual name (.implicit ws a) = (qualRender qual ++ [name]) ++ (ws ++ [a]) := by
+      simp [identShape, AliasPart.render]
+    have hno_as : tokenNextBy up (identShape qual name (.implicit ws a)) [] [mAS] .none = none := by
+      apply tokenNextBy_none_of_forall
+      intro k hk
+      rw [hks] at hk
+      simp only [List.mem_append, List.mem_singleton] at hk
+      rcases hk with hk | hk | rfl
+      · exact hhead_as k (by simpa using hk)
+      · exact ws_not_as up (hws k hk)
+      · exact name_not_as up ha
+    obtain ⟨w, ws', rfl⟩ := List.exists_cons_of_ne_nil hne
+    have hws_hit : tokenNextBy up (identShape qual name (.implicit (w :: ws') a)) [] [] (.hier [T.Whitespace]) =
+        some ((qualRender qual ++ [name]).length, w) := by
+      rw [hks]
+      exact tokenNextBy_hit up _ w (ws' ++ [a]) _ _ _ hhead_ws (ws_is_ws up (hws w (by simp)))
+    rw [hno_as, hws_hit]
+    have hlen : (identShape qual name (.implicit (w :: ws') a)).length > 2 := by
+      rw [hks]; simp; omega
+    simp only [hlen, if_true]
+    exact getFirstName_hit up _ none true false false [] a ((qualRender qual ++ [name] ++ (w :: ws')).reverse)
+      (by simp [sliceOf, hks]) (by intro k hk; cases hk) (name_hit ha false)
+  | explicit ws1 as ws2 a =>
+    obtain ⟨_, hws1, has, _, hws2, ha⟩ := hal
+    have hks : identShape qual name (.explicit ws1 as ws2 a) =
+        (qualRender qual ++ [name] ++ ws1) ++ as :: (ws2 ++ [a]) := by
+      simp [identShape, AliasPart.render]
+    have has_hit : tokenNextBy up (identShape qual name (.explicit ws1 as ws2 a)) [] [mAS] .none =
+        some ((qualRender qual ++ [name] ++ ws1).length, as) := by
+      rw [hks]
+      apply tokenNextBy_hit up _ as (ws2 ++ [a]) _ _ _ _ (as_is_as up has)
+      intro k hk
+      rcases List.mem_append.1 hk with hk | hk
+      · exact hhead_as k hk
+      · exact ws_not_as up (hws1 k hk)
+    rw [has_hit]
+    exact getFirstName_hit up _ (some ((qualRender qual ++ [name] ++ ws1).length + 1)) false true false ws2 a []
+      (by
+        have : ((qualRender qual ++ [name] ++ ws1).length + 1 == 0) = false := by simp
+        simp only [sliceOf, this, Bool.false_eq_true, if_false, hks]
+        rw [drop_length_succ])
+      (fun k hk => ws_passed (hws2 k hk) true) (name_hit ha true)
+
+/-- **`get_name()`** is `alias or real_name`, **`has_alias()`** tells whether an alias is written
+(on values that `remove_quotes` accepts, i.e. non-empty token values). -/
+theorem getName_identShape (c : Cls) (hc : isMixin c = true) (qual : Option Node) (name : Node) (al : AliasPart)
+    (hq : ∀ q, qual = some q → IsNameTok q) (hn : IsNameTok name) (hal : al.WF up) :
+    getName up c (identShape qual name al) = pyOrName (unquoted al.alias?) (unquoted (some name)) := by
+  have h1 := getRealName_identShape up c hc qual name al hq hn hal
+  have h2 := getAlias_identShape up c hc qual name al hq hn hal
+  unfold getRealName at h1
+  unfold getAlias at h2
+  unfold getName nameK
+  rw [h1, h2]
+
+theorem hasAlias_identShape (c : Cls) (hc : isMixin c = true) (qual : Option Node) (name : Node) (al : AliasPart)
+    (hq : ∀ q, qual = some q → IsNameTok q) (hn : IsNameTok name) (hal : al.WF up)
+    (hv : ∀ a, al.alias? = some a → a.value ≠ []) :
+    hasAlias up c (identShape qual name al) = .ok al.alias?.isSome := by
+  unfold hasAlias
+  rw [getAlias_identShape up c hc qual name al hq hn hal]
+  cases h : al.alias? with
+  | none => rfl
+  | some a =>
+    obtain ⟨r, hr⟩ := removeQuotes_ok_of_ne (hv a h)
+    simp [unquoted, hr, Except.map]
+
+/-- the written triple: with non-empty unquoted values, `get_name()` is the alias if present, else the name -/
+example : getName id .Identifier
+    (identShape (some (.tok T.StringSymbol [34, 115, 34])) (.tok T.Name [96, 116, 96])
+      (.explicit [.tok T.Whitespace [32]] (.tok T.Keyword [97, 115]) [.tok T.Newline [10]] (.tok T.Name [120])))
+    = .ok (some [120]) := by rfl
+
+end IdentShape
+
+/-! ## `Statement.get_type` -/
+
+/-- first significant token is a DML/DDL keyword: its upper-cased value -/
+theorem getType_dml_ddl (up : Text → Text) (ks : List Node) (i : Nat) (t : TType) (v : Text)
+    (h : tokenFirstIdx ks true true = some (i, .tok t v)) (ht : t = T.DML ∨ t = T.DDL) :
+    getType up ks = up v := by
+  unfold getType
+  rw [h]
+  rcases ht with rfl | rfl
+  · have h1 : (Node.tok T.DML v).ttEqAny [T.DML, T.DDL] = true := by show List.contains _ _ = true; decide
+    have h2 : TType.isIn T.DML T.Keyword = true := by decide
+    simp [h1, Node.normalized, h2]
+  · have h1 : (Node.tok T.DDL v).ttEqAny [T.DML, T.DDL] = true := by show List.contains _ _ = true; decide
+    have h2 : TType.isIn T.DDL T.Keyword = true := by decide
+    simp [h1, Node.normalized, h2]
+
+/-- nothing but whitespace and comments: `'UNKNOWN'` -/
+theorem getType_empty (up : Text → Text) (ks : List Node) (h : ∀ k ∈ ks, Skipped true true k) :
+    getType up ks = sUNKNOWN := by
+  unfold getType
+  rw [(tokenFirst_spec ks true true).2.1.2 h]
+
+/-- the CTE loop needs at most `len - tidx + 1` rounds: any two sufficient fuels give the same answer, so the
+"fuel exhausted" branch of `cteWalk` is unreachable from `getType` (which passes `len + 1`). -/
+theorem cteWalk_fuel_irrelevant (up : Text → Text) (ks : List Node) (f₁ f₂ tidx : Nat)
+    (h₁ : ks.length < tidx + f₁) (h₂ : ks.length < tidx + f₂) :
+    cteWalk up ks f₁ (some tidx) = cteWalk up ks f₂ (some tidx) := by
+  induction f₁ generalizing f₂ tidx with
+  | zero =>
+    have hnone : tokenNext ks tidx = none := by
+      rw [(tokenNext_spec ks tidx true false).2]
+      intro j k hj hk
+      have := (List.getElem?_eq_some_iff.1 hk).1
+      omega
+    cases f₂ with
+    | zero => rfl
+    | succ f₂ => simp [cteWalk, hnone]
+  | succ f₁ ih =>
+    cases f₂ with
+    | zero =>
+      have hnone : tokenNext ks tidx = none := by
+        rw [(tokenNext_spec ks tidx true false).2]
+        intro j k hj hk
+        have := (List.getElem?_eq_some_iff.1 hk).1
+        omega
+      simp [cteWalk, hnone]
+    | succ f₂ =>
+      simp only [cteWalk]
+      cases hn : tokenNext ks tidx with
+      | none => rfl
+      | some r =>
+        obtain ⟨i, tok⟩ := r
+        have hi := (((tokenNext_spec ks tidx true false).1 i tok).1 hn).1
+        simp only
+        split
+        · cases hn2 : tokenNext ks i with
+          | none => rfl
+          | some r2 =>
+            obtain ⟨j, tok2⟩ := r2
+            have hj := (((tokenNext_spec ks i true false).1 j tok2).1 hn2).1
+            simp only
+            split
+            · rfl
+            · exact ih f₂ j (by omega) (by omega)
+        · exact ih f₂ i (by omega) (by omega)
 
 end Acc
 end Sql
